@@ -382,7 +382,7 @@ func (it *interp) analyzeLoop(f frameID, fn *ssa.Function, L *loop, ins []edgeIn
 						}
 					}
 					if !found {
-						delete(nd.mem, k)
+						nd.forget(k)
 					}
 				}
 				cur := func(i int) *lin.Lin { return mvars[i].head }
